@@ -3,6 +3,8 @@ from __future__ import annotations
 
 import ast
 import inspect
+import os
+import sys
 import time
 import traceback
 
@@ -286,13 +288,21 @@ class Contract:
                 eff(old, self_obj, a, result)
         ens_fn = getattr(self, "ensures_callee", None) or self.ensures
         ens = ens_fn(old, self_obj, a, result) if self_obj is not None else ens_fn(a, result)
+        _label = None
         try:
             for _label, fml in self._gen(ens):
                 st.assume(fml if isinstance(fml, (SBool, bool)) else mk_bool(V._zb(fml)))
         except PathEnd:
+            if os.environ.get("PYVC_DEBUG_DEAD"):
+                # (developer aid) which clause of the callee's postcondition was concretely false at this call site.  Often
+                # legitimate -- the engine forks over the alternatives of an optional result and the postcondition rules one
+                # out -- but a clause about the EVENTS of the callee's body (which a call site does not replay) is false at
+                # every call site and silently ends the caller's path: such clauses belong in `ensures` only, callers get
+                # `ensures_callee`.  The reach@after guard below catches the case where no path survives.
+                print(f"DEAD {ip.task.name} @{f.ref.qualname}:{(site or '').split(':')[-1]} clause={_label}", file=sys.stderr)
             # the callee's postcondition is concretely false here: the path ends -- the reachability guard of this call
             # site must not silently disappear with it (a caller could otherwise come back "ok" with no obligations left)
-            if check_pre:
+            if check_pre and not getattr(self, "never_returns", False):
                 st.cover_dead(f"{ip.task.name}/reach@after-{f.ref.qualname}:{(site or '').split(':')[-1]}")
             raise
         finally:
